@@ -97,11 +97,12 @@ def replay_leg(st, col, corrupt=None):
     mods = st['mods']
     key = _key(st)
 
-    def fail(op, clause, n, got=None, exp=None, **extra):
+    def fail(op, clause, n, got=None, exp=None, stop=True, **extra):
         sig = dict(kind='replay', spec='Charges', op=op, clause=clause)
         sig.update(extra)
         col.violation(sig, dict(kind='leg', step=n, state=tlaval.to_jsonable(st), got=got, expected=exp))
-        raise Stop()
+        if stop:
+            raise Stop()
 
     ci = None
     L = None
@@ -202,7 +203,9 @@ def _leg_query(L, l, n, fail):
                 got = [-1, -1]
             if got != list(exp):
                 at = 'ind_len' if fi == int(L.ind_len) else ('valid' if exp != [-1, -1] else 'outside')
-                fail(op, 'result' if exp != [-1, -1] else 'no-IndexError', n, got=dict(flat_index=fi, res=got), exp=list(exp), at=at)
+                # (the entry for flat_index == ind_len does not end the comparison of the table)
+                fail(op, 'result' if exp != [-1, -1] else 'no-IndexError', n, got=dict(flat_index=fi, res=got), exp=list(exp), at=at,
+                     stop=(at != 'ind_len'))
     elif op == 'perm':
         import numpy as np
         pf = [int(x) for x in L.perm_flat_from_perm_qind(np.array(l['perm_qind'], dtype=np.intp))]
@@ -220,7 +223,7 @@ def _leg_query(L, l, n, fail):
                 got = type(e).__name__
             ok = (got == 'ValueError') if not sols else (got in sols)
             if not ok:
-                fail(op, name, n, got=got, exp=sols if sols else 'ValueError', sizes_all_one=ones)
+                fail(op, name, n, got=got, exp=sols if sols else 'ValueError', sizes_all_one=ones, stop=ones)
     elif op == 'tests':
         def raises(f, *a):
             try:
@@ -677,7 +680,7 @@ def pipe_cfg(seed, profiles, maxpost=1, postrate=1, maxnest=0, nestrate=1, declm
     return dict(init='PInit', next='PNext', constants=c, invariants=P_INV, view='PView')
 
 
-def mc_stage(ctx, pools, name, spec, cfg, kind, sample_mod=1, timeout=1500):
+def mc_stage(ctx, pools, name, spec, cfg, kind, sample_mod=1, timeout=1800):
     t0 = time.time()
     res, dump, d = tlc.mc(spec, cfg, dump=True, workers=NWORK, timeout=timeout)
     try:
@@ -739,9 +742,29 @@ def canary_corrupt(ctx):
     ctx.notes['canary_corrupted_map_rejected'] = bad.viol[0][0]['clause']
 
 
+_PRELOADED = {}
+
+
+def _preload_replay(argv):
+    """core.Ctx removes the replay files of earlier runs of the property when it is created -- also the one
+    named by --replay when it lives in evidence/replays.  Read it before the context exists."""
+    for i, a in enumerate(argv):
+        path = None
+        if a == '--replay' and i + 1 < len(argv):
+            path = argv[i + 1]
+        elif a.startswith('--replay='):
+            path = a.split('=', 1)[1]
+        if path and os.path.exists(path):
+            with open(path) as f:
+                _PRELOADED[path] = json.load(f)
+
+
 def do_replay_file(ctx):
-    with open(ctx.replay_file) as f:
-        rec = json.load(f)
+    if ctx.replay_file in _PRELOADED:
+        rec = _PRELOADED[ctx.replay_file]
+    else:
+        with open(ctx.replay_file) as f:
+            rec = json.load(f)
     det = rec['detail']
     col = Col()
     if det.get('kind') == 'pipe':
@@ -766,6 +789,7 @@ def check(ctx):
                'the catalogue bound: <= 3 blocks, block sizes 0..2, charges in a window of width 3, mod in {1,2,3}, qnumber <= 2; '
                'where a profile gives a rate > 1 a seeded 1/rate sample of the bound is enumerated')
     if ctx.replay_file:
+        ctx.rule = 're-execution of one recorded behaviour'
         return do_replay_file(ctx)
     quick = ctx.tier == 'quick'
     only = ctx.only
@@ -776,27 +800,27 @@ def check(ctx):
             canary_corrupt(ctx)
         if not only or 'charges' in only:
             if quick:
-                runs = [('Charges/q<=1', dict(ModsSet='<-ModsQ01', CBlk=3, CSizes={0, 1, 2}, CRate=12, XBlk=1, XSizes={0, 2}, XRate=3,
-                                              XInts={0, 2}, MaskRate=8, MaxOps=2)),
-                        ('Charges/q=2', dict(ModsSet='<-ModsQ2Few', CBlk=2, CSizes={1, 2}, CRate=24, XBlk=1, XSizes={1}, XRate=6,
-                                             XInts={1}, MaskRate=8, MaxOps=2))]
+                runs = [('Charges/q<=1', dict(ModsSet='<-ModsQ01', CBlk=3, CSizes={0, 1, 2}, CRate=60, XBlk=1, XSizes={0, 2}, XRate=4,
+                                              XInts={0, 2}, MaskRate=16, QRate=6, MaxOps=2)),
+                        ('Charges/q=2', dict(ModsSet='<-ModsQ2Few', CBlk=2, CSizes={1, 2}, CRate=60, XBlk=1, XSizes={1}, XRate=6,
+                                             XInts={1}, MaskRate=16, QRate=6, MaxOps=2))]
             else:
-                runs = [('Charges/q<=1', dict(ModsSet='<-ModsQ01', CBlk=3, CSizes={0, 1, 2}, CRate=2, XBlk=2, XSizes={0, 1, 2}, XRate=6,
-                                              XInts={0, 1, 2}, MaskRate=4, MaxOps=2)),
-                        ('Charges/q=2', dict(ModsSet='<-ModsQ2', CBlk=2, CSizes={0, 1, 2}, CRate=12, XBlk=1, XSizes={1, 2}, XRate=4,
-                                             XInts={1}, MaskRate=4, MaxOps=2)),
-                        ('Charges/depth3', dict(ModsSet='<-ModsQ1', CBlk=3, CSizes={0, 1, 2}, CRate=60, XBlk=1, XSizes={2}, XRate=8,
-                                                XInts={1}, MaskRate=16, MaxOps=3))]
+                runs = [('Charges/q<=1', dict(ModsSet='<-ModsQ01', CBlk=3, CSizes={0, 1, 2}, CRate=30, XBlk=2, XSizes={0, 1, 2}, XRate=60,
+                                              XInts={0, 1, 2}, MaskRate=16, QRate=6, MaxOps=2)),
+                        ('Charges/q=2', dict(ModsSet='<-ModsQ2', CBlk=2, CSizes={0, 1, 2}, CRate=80, XBlk=1, XSizes={1, 2}, XRate=6,
+                                             XInts={1}, MaskRate=8, QRate=4, MaxOps=2)),
+                        ('Charges/depth3', dict(ModsSet='<-ModsQ1', CBlk=3, CSizes={0, 1, 2}, CRate=300, XBlk=1, XSizes={2}, XRate=8,
+                                                XInts={1}, MaskRate=16, QRate=8, MaxOps=3))]
             for name, kw in runs:
                 mc_stage(ctx, pools, name, 'Charges', charges_cfg(seed, **kw), 'leg')
         if not only or 'pipe' in only:
             if quick:
-                mc_stage(ctx, pools, 'Pipe/quick', 'Pipe', pipe_cfg(seed, 'QuickProfiles', maxpost=1, postrate=6, maxnest=1, nestrate=400), 'pipe')
+                mc_stage(ctx, pools, 'Pipe/quick', 'Pipe', pipe_cfg(seed, 'QuickProfiles', maxpost=1, postrate=12, maxnest=1, nestrate=200), 'pipe')
             else:
                 mc_stage(ctx, pools, 'Pipe/thorough', 'Pipe',
-                         pipe_cfg(seed, 'ThoroughProfiles', maxpost=2, postrate=6, maxnest=1, nestrate=600), 'pipe', timeout=2400)
+                         pipe_cfg(seed, 'ThoroughProfiles', maxpost=2, postrate=8, maxnest=1, nestrate=300), 'pipe', timeout=3600)
                 mc_stage(ctx, pools, 'Pipe/window 0..2', 'Pipe',
-                         pipe_cfg(seed + 1, 'QuickProfiles', maxpost=1, postrate=6, maxnest=1, nestrate=400, win='WinPos'), 'pipe')
+                         pipe_cfg(seed + 1, 'QuickProfiles', maxpost=1, postrate=12, maxnest=1, nestrate=200, win='WinPos'), 'pipe')
         if not only or 'sim' in only:
             sim_stage(ctx, 'Pipe/simulate 4 legs + nested', pipe_cfg(seed, 'SimProfiles', maxpost=2, maxnest=1, declmax=0, nestmax=36, nestn=3, nestlegrate=1),
                       num=15 if quick else 400, depth=16, seed=seed + 3)
@@ -809,4 +833,6 @@ def check(ctx):
 
 
 if __name__ == '__main__':
+    import sys
+    _preload_replay(sys.argv[1:])
     core.main_wrapper('C06', check)
